@@ -41,7 +41,7 @@ CLAIMED = {
     design="§4 C20"),
  "C10": dict(
     text="Bounded model checking with Kani/CBMC of the real numeric primitives on symbolic operands (full 64-bit width for + - negate abs parity arithmetic-shift int/float equality; exact of every integral double; magnitude; machine integer by big integer quotient with a division model; stated smaller ranges for division, multiplication values, expt, rationals) against a 128-bit oracle and a canonical-form check; counterexamples are replayed natively with Kani's concrete playback, which runs the real code.",
-    note="Trusted: Kani/CBMC; num-bigint (its `BigInt += isize`/`*= isize` are modelled by exact i128 arithmetic and the x86 carry intrinsics by their definition); feature set without jit2. `BigInt << u32` and `BigInt::pow` are recording stubs; num-bigint's long division is replaced by an exact model valid for quotient digit 0/1 (num_*_i_big). One SMT query (z3) per numeric kernel over its MIR: every pair of number kinds is handled without reaching unreachable!(). Outside: the specialised arithmetic opcodes inlined in the VM loop, the constant folder, number<->string, gcd/lcm, expt beyond exponent -1/-30, full-width division and multiplication values, big-integer division, big operands above two limbs.",
+    note="Trusted: Kani/CBMC; num-bigint (its `BigInt += isize`/`*= isize` are modelled by exact i128 arithmetic and the x86 carry intrinsics by their definition); feature set without jit2. `BigInt << u32` and `BigInt::pow` are recording stubs; num-bigint's long division is replaced by an exact model valid for quotient digit 0/1 (num_*_i_big). One SMT query (z3) per numeric kernel over its MIR: every pair of number kinds is handled without reaching unreachable!(); and one over the decision tree of PartialOrd::partial_cmp: every ordered pair of real-number kinds has an arm. Outside: the specialised arithmetic opcodes inlined in the VM loop, the constant folder, number<->string, gcd/lcm, expt beyond exponent -1/-30, full-width division and multiplication values, big-integer division, big operands above two limbs.",
     technique="SAT-based bounded model checking (Kani/CBMC) of the real primitives with a 128-bit arithmetic oracle, and SMT (z3, QF_BV) over the MIR of the numeric kernels for kind-pair totality; native replay by concrete playback / a script call",
     design="§4 C10"),
  "C11": dict(
